@@ -401,7 +401,8 @@ theorem CInv.step_stale (c : Chunk) (l : List (Int × Hist)) (inv : CInv c l) (h
     (hs : h.stale = true) (hfl : h.float = c.float) : CInv (c.appendRaw t h) ((t, h) :: l) := by
   rw [appendRaw_cons_stale c hne t h hs]
   have hsum : h.sum = staleBits := by simpa [Hist.stale] using hs
-  refine ⟨⟨⟨rfl, fun _ => hsum, fun h' => by simp [hs] at h'⟩, inv.rep⟩, inv.pS, inv.nS, ?_, ?_, ?_, ?_, ?_⟩
+  refine ⟨⟨⟨rfl, fun _ => hsum, fun h' => by simp [hs] at h'⟩, inv.rep⟩, inv.pS, inv.nS, ?_, ?_, ?_, ?_, ?_,
+    fun hf => ⟨⟨by simp, by simp⟩, inv.vals hf⟩⟩
   rotate_left 3
   · intro s hs' hst
     rcases List.mem_cons.1 hs' with rfl | hs'
